@@ -66,3 +66,87 @@ Example C15_accepts_example :
   parse_triple ex_oracles (lit "/a<b>	""p""@[]	""[1 2]""^^type:blob")
   = Ok (mkTriple (mkNode (lit "/a") (lit "b")) (mkPred (lit "p") None) (OLit (LBlob [x01; x02]))).
 Proof. vm_compute. reflexivity. Qed.
+
+(* ---- "whatever they accept prints to text that they accept again as an equal value".
+   accept_laws O (RoundTrip.v) = the three strconv.Quote laws plus: every time returned by time.Parse formats to a
+   non-empty text over 0-9 T : . Z + - that parses back to the same instant and offset; every float returned by ParseFloat
+   (NaN included) prints to text that parses back to the same bits.  Sampled on every run. *)
+From BWValues Require Import RoundTrip AcceptStable.
+
+Theorem C15_accept_stable : forall (O : oracles), accept_laws O -> forall s : str,
+  (forall n, parse_node s = Ok n -> parse_node (print_node n) = Ok n) /\
+  (forall p, parse_pred O s = Ok p -> parse_pred O (print_pred O p) = Ok p) /\
+  (forall l, parse_literal O s = Ok l -> parse_literal O (print_literal O l) = Ok l) /\
+  (forall o, parse_object O s = Ok o -> parse_object O (print_object O o) = Ok o).
+Proof.
+  intros O A s. repeat split; intros v H.
+  - exact (node_accept_stable s v H).
+  - exact (pred_accept_stable O A s v H).
+  - exact (literal_accept_stable O A s v H).
+  - exact (object_accept_stable O A s v H).
+Qed.
+Print Assumptions C15_accept_stable.
+
+(* triples: PARTIAL - stable when the accepted predicate id has no space and the subject type no form feed
+   (the components of every accepted triple are individually stable: parse_triple_components) *)
+Theorem C15_accept_stable_triple_partial : forall (O : oracles), accept_laws O -> forall s t,
+  parse_triple O s = Ok t ->
+  memb c_space (pid (tpred t)) = false -> memb x0c (ntype (subj t)) = false ->
+  parse_triple O (print_triple O t) = Ok t.
+Proof. exact triple_accept_stable_partial. Qed.
+Print Assumptions C15_accept_stable_triple_partial.
+
+(* REFUTED in full: an id containing ']' blank '/' reached through an escape (\x20) is accepted; its printed form is not.
+   Library answers as a table: Unquote of the escaped form, Quote of the id. *)
+Definition respaced_oracles : oracles :=
+  table_oracles (mkTables [(lit """x]\x20/y""", lit "x] /y")] [(lit "x] /y", lit """x] /y""")] [] [] [] []).
+
+Theorem C15_accept_stable_triple_refuted : exists O s t,
+  parse_triple O s = Ok t /\ parse_triple O (print_triple O t) = Err.
+Proof.
+  exists respaced_oracles, (lit "/a<b>	""x]\x20/y""@[]	/c<d>"),
+         (mkTriple (mkNode (lit "/a") (lit "b")) (mkPred (lit "x] /y") None) (ONode (mkNode (lit "/c") (lit "d")))).
+  split; vm_compute; reflexivity.
+Qed.
+Print Assumptions C15_accept_stable_triple_refuted.
+
+(* ---- the line-oriented reader (model Io.v, after F22/F23).  A raw line is what lies between newlines;
+   line_text drops a trailing CR and trims.  line_ok: fits bufio.Scanner's 64 KiB buffer and is blank or a triple;
+   line_bad: does not fit, or is neither blank nor a triple.  (Every line is one or the other: line_ok_or_bad.) *)
+From BWValues Require Import IoProofs.
+
+(* exactly the triples on the lines before the first malformed line are added (in order), that count is reported,
+   and an error is returned - for every text, every starting graph, every library behaviour *)
+Theorem C15_reader_prefix : forall (O : oracles) (pre : list str) (bad : str) (rest : list str) (g : graph),
+  Forall (line_ok O) pre -> line_bad O bad ->
+  exists g', add_all g (line_triples O pre) = Ok g' /\
+             read_lines O (pre ++ bad :: rest) 0 g = (N.of_nat (List.length (line_triples O pre)), RErr, g').
+Proof. exact read_lines_prefix. Qed.
+Print Assumptions C15_reader_prefix.
+
+(* no malformed line: every triple is added, the count is the number of non-blank lines, nil error *)
+Theorem C15_reader_all : forall (O : oracles) (ls : list str) (g : graph),
+  Forall (line_ok O) ls ->
+  exists g', add_all g (line_triples O ls) = Ok g' /\
+             read_lines O ls 0 g = (N.of_nat (List.length (line_triples O ls)), RNil, g').
+Proof. exact read_lines_all. Qed.
+Print Assumptions C15_reader_all.
+
+Theorem C15_reader_total : forall (O : oracles) (l : str), line_ok O l \/ line_bad O l.
+Proof. exact line_ok_or_bad. Qed.
+Print Assumptions C15_reader_total.
+
+(* the reader itself never panics (also not inside AddTriples: no accepted triple has an invalid object, and after F5
+   every literal has a UUID) *)
+Theorem C15_reader_no_panic : forall (O : oracles) (text : str) (g : graph),
+  snd (fst (read_into_graph O g text)) <> RPanic.
+Proof. intros O text g. apply read_lines_no_panic. Qed.
+Print Assumptions C15_reader_no_panic.
+
+Example C15_reader_example :
+  read_into_graph ex_oracles [] (lit "/a<b>	""p""@[]	/c<d>
+bad line
+/a<b>	""p""@[]	/e<f>
+") = (1%N, RErr, [((lit "/ab", lit "pimmutable", lit "/cd"),
+                   mkTriple (mkNode (lit "/a") (lit "b")) (mkPred (lit "p") None) (ONode (mkNode (lit "/c") (lit "d"))))]).
+Proof. vm_compute. reflexivity. Qed.
